@@ -178,6 +178,16 @@ fn check_inner(sub: &str, g: &G, toks: &[char], l: &mut Local) -> CaseRes {
 }
 
 pub fn check_case(case: &Case, l: &mut Local) -> Result<(), Fail> {
+    if case.sub == "static-iter" {
+        let want = case.extra.get("template").and_then(|x| x.as_str()).unwrap_or("");
+        for (name, outside, inside) in iter_provider_family(&case.input) {
+            l.evals += 4;
+            if name == want && outside != inside {
+                return Err(Fail::new("C15/provider-as-item-source", format!("{}: collected outside the provider: {} -- collected inside: {}", name, outside, inside)));
+            }
+        }
+        return Ok(());
+    }
     check_inner(&case.sub, &case.g, &case.toks(), l).map_err(|(_, f)| f)
 }
 
@@ -229,6 +239,80 @@ pub fn families() -> Vec<G> {
     out
 }
 
+// ---- context providers used as ITEM SOURCES (statically typed; the grammar AST has no such node) ----
+//
+// `hdr.ignore_with_ctx(items)` / `hdr.then_with_ctx(items)` are IterParsers when `items` is one: the items are then
+// collected OUTSIDE the provider. Metamorphic oracle: collecting outside must equal collecting inside
+// (`hdr.ignore_with_ctx(items.collect())`), where the consumer sees the provider's output for this very attempt.
+// Shapes whose inner item source consumes input while it is set up (a nested provider, `into_iter()`) are included.
+
+/// (name, outside formulation, inside formulation) rendered results for parse and check
+pub fn iter_provider_family(s: &str) -> Vec<(&'static str, String, String)> {
+    use chumsky::prelude::*;
+    use chumsky::IterParser;
+    type E0<'a> = extra::Err<Rich<'a, char>>;
+    type E1<'a> = extra::Full<Rich<'a, char>, (), usize>;
+    fn show<T: std::fmt::Debug>(r: ParseResult<T, Rich<'_, char>>) -> String {
+        let (o, e) = r.into_output_errors();
+        format!("{:?} / {:?}", o, e.iter().map(|e| format!("{:?}@{:?}", e.reason(), e.span())).collect::<Vec<_>>())
+    }
+    macro_rules! both {
+        ($name:expr, $out:expr, $ins:expr, $acc:ident) => {{
+            let (po, pi) = ($out, $ins);
+            let a = format!("parse: {} | check: {:?}", show(po.parse(s)), { let r = po.check(s); let n = r.errors().len(); (r.has_output(), n) });
+            let b = format!("parse: {} | check: {:?}", show(pi.parse(s)), { let r = pi.check(s); let n = r.errors().len(); (r.has_output(), n) });
+            $acc.push(($name, a, b));
+        }};
+    }
+    let digit = || one_of::<_, &str, E0>("012").map(|c: char| c as usize - '0' as usize);
+    let digit1 = || one_of::<_, &str, E1>("012").map(|c: char| c as usize - '0' as usize);
+    let items = || just::<_, &str, E1>('a').repeated().configure(|c, n: &usize| c.exactly(*n));
+    let rest0 = || any::<&str, E0>().repeated().collect::<String>();
+    let mut acc = vec![];
+    // the plain provider: nothing is consumed while the inner item source is set up
+    both!(
+        "ignore_with_ctx(configured repeated)",
+        digit().ignore_with_ctx(items()).collect::<Vec<char>>().then(rest0()),
+        digit().ignore_with_ctx(items().collect::<Vec<char>>()).then(rest0()),
+        acc
+    );
+    both!(
+        "then_with_ctx(configured repeated)",
+        digit().then_with_ctx(items()).collect::<Vec<char>>().then(rest0()),
+        digit().ignore_with_ctx(items().collect::<Vec<char>>()).then(rest0()),
+        acc
+    );
+    // a nested provider: setting up the inner item source runs the inner header (consumes a token)
+    both!(
+        "ignore_with_ctx(ignore_with_ctx(configured repeated))",
+        digit().ignore_with_ctx(digit1().ignore_with_ctx(items())).collect::<Vec<char>>().then(rest0()),
+        digit().ignore_with_ctx(digit1().ignore_with_ctx(items().collect::<Vec<char>>())).then(rest0()),
+        acc
+    );
+    both!(
+        "then_with_ctx(then_with_ctx(configured repeated))",
+        digit().then_with_ctx(digit1().then_with_ctx(items())).collect::<Vec<char>>().then(rest0()),
+        digit().ignore_with_ctx(digit1().ignore_with_ctx(items().collect::<Vec<char>>())).then(rest0()),
+        acc
+    );
+    // into_iter(): the word is parsed while the item source is set up
+    let word = || just::<_, &str, E1>('a').repeated().configure(|c, n: &usize| c.at_most(*n)).collect::<Vec<char>>();
+    both!(
+        "ignore_with_ctx(word.into_iter())",
+        digit().ignore_with_ctx(word().into_iter()).collect::<Vec<char>>().then(rest0()),
+        digit().ignore_with_ctx(word()).then(rest0()),
+        acc
+    );
+    // inside a repetition: a different context per outer item
+    both!(
+        "repeated(ignore_with_ctx(..).count())",
+        digit().ignore_with_ctx(digit1().ignore_with_ctx(items())).count().repeated().collect::<Vec<usize>>().then(rest0()),
+        digit().ignore_with_ctx(digit1().ignore_with_ctx(items().count())).repeated().collect::<Vec<usize>>().then(rest0()),
+        acc
+    );
+    acc
+}
+
 pub fn decode(tape: &[u32]) -> (G, Vec<char>) {
     let mut t = Tape::new(tape);
     let (g, alpha) = {
@@ -266,6 +350,25 @@ pub fn run(tier: Tier, seed: u64) -> i32 {
         }
         Ok(())
     });
+    // context providers used as item sources: collecting outside == collecting inside, on every short string
+    {
+        let chunks: Vec<&[Vec<char>]> = strings.chunks(512).collect();
+        ctx.par_jobs(&chunks, |chunk, l| {
+            for cs in chunk.iter() {
+                let s: String = cs.iter().collect();
+                for (name, outside, inside) in iter_provider_family(&s) {
+                    l.evals += 4;
+                    l.bump("provider_as_item_source_comparisons");
+                    if outside != inside {
+                        let mut c = Case::new(ID, "static-iter", &G::Empty, cs);
+                        c.extra = serde_json::json!({ "template": name });
+                        return Err((c, Fail::new("C15/provider-as-item-source", format!("{}: collected outside the provider: {} -- collected inside: {}", name, outside, inside))));
+                    }
+                }
+            }
+            Ok(())
+        });
+    }
     let n = ctx.pick(3_000_000, 16_000_000);
     ctx.par_random(n, 200, 15, |tape, l| {
         let (g, input) = decode(tape);
@@ -273,7 +376,7 @@ pub fn run(tier: Tier, seed: u64) -> i32 {
         check_inner("rand", &g, &input, l)
     });
     ctx.finish(&check_case, RULE, ASSUMPTIONS, &|l| {
-        for k in ["two_different_contexts_reached_one_consumer_and_accepted", "try_configure_error", "static_equivalent_pairs", "accepted", "rejected"] {
+        for k in ["provider_as_item_source_comparisons", "two_different_contexts_reached_one_consumer_and_accepted", "try_configure_error", "static_equivalent_pairs", "accepted", "rejected"] {
             if l.counters.get(k).copied().unwrap_or(0) == 0 {
                 return Err(format!("class '{}' is empty", k));
             }
